@@ -27,7 +27,7 @@ def nosep(t):
 
 
 class ParseQsl(Contract):
-    props = ('C18',)
+    props = ('C18', 'C12')
     file = 'ombott/request_pkg/helpers.py'
     qualname = 'parse_qsl'
     assumptions = ('urllib.parse.unquote and str.replace are total functions on str (uninterpreted)',
